@@ -451,7 +451,7 @@ def _run_imp(c):
     rec = []
 
     def method(C):
-        out = f(C)
+        out = f(C, calculate_eq_probs=False)     # only the transition matrix is used by calc_imp_times
         rec.append((_dense(C).tolist(), _dense(out[1]).copy()))
         return out
     try:
@@ -750,7 +750,7 @@ def _coq_ens(c, r):
 
 
 def _imp_terms(c, r):
-    b = "{| bf_name := %s; bf_eq := true |}" % _cbname(c["builder"])
+    b = "{| bf_name := %s; bf_eq := false |}" % _cbname(c["builder"])
     a = _ctrjs(c["trjs"])
     return ["(imp_tprobs [] %s %s %s (imp_n_states %s) %s %s)" % (b, a, cz(lag), a, cb(c["sliding"]), cb(c["trim"]))
             for lag in c["lags"]]
